@@ -493,6 +493,23 @@ def run(repo: Repo, rep: Report) -> None:  # noqa: F811
                "translated by translatePath" if ok else
                "the grammar produces %s nodes but translatePath has no arm for them: the parse node itself ends up as a member of the path object and evaluation raises (`?x !(^:p) ?y` is valid SPARQL)" % nm, node=c)
 
+    # the negated-set arm wraps in InvPath exactly the part built from the inverse members (SPARQL 18.2.2.3: !(fwd|^inv) = NPS(fwd) | ^NPS(inv))
+    for f_ in tp:
+        inv_names, fwd_names = set(), set()
+        for a in own_nodes(f_):
+            if isinstance(a, ast.Assign) and isinstance(a.targets[0], ast.Name) and isinstance(a.value, ast.ListComp):
+                conds = [norm(c) for g_ in a.value.generators for c in g_.ifs]
+                if any('"InversePath"' in c.replace("'", '"') for c in conds):
+                    (fwd_names if any(c.startswith("not ") for c in conds) else inv_names).add(a.targets[0].id)
+        for c in own_nodes(f_):
+            if isinstance(c, ast.Call) and norm(c.func) == "InvPath" and c.args and (inv_names or fwd_names):
+                used = {n.id for n in ast.walk(c.args[0]) if isinstance(n, ast.Name)}
+                if used & (inv_names | fwd_names):
+                    ok = bool(used & inv_names) and not (used & fwd_names)
+                    rep.ob("C11.i-path-grammar-nodes-are-translated", am, "translatePath", c, ok,
+                           "the inverse of the set of ^members" if ok else
+                           "InvPath wraps the set built from the FORWARD members (%s): !(:a|^:b) is evaluated as ^!(:a) | !(:b) - the forward IRIs are excluded in the reverse direction and vice versa" % sorted(used & fwd_names), node=c)
+
     # ------------------------------------------------------------------ (j)
     rep.rule("C11.j-negated-set-inverse-members-reversed",
              "NegatedPath accepts inverse members (^iri); !(…|^q|…) contains the REVERSED edges whose predicate is none of the q, so NegatedPath.eval enumerates "
